@@ -144,6 +144,25 @@ func gen(tier string) []proto.Item {
 				}
 			}
 		}
+		// a frame of the WRONG IP version: the reply a probe would be answered with, but carried in an IPv6 datagram between the
+		// IPv4-mapped forms (::ffff:a.b.c.d) of the run's two addresses, while that probe is outstanding (IPv4 runs; the direct
+		// replies: echo reply, SYN-ACK, RST, selective acknowledgement)
+		if !vi.V6 {
+			dfs := []string{vi.DestForm}
+			if vi.Kind == "tcp" || vi.Kind == "tcpparis" {
+				dfs = append(dfs, "rst")
+			}
+			for _, form := range dfs {
+				if simnet.IsICMPError(form) {
+					continue
+				}
+				for _, t := range []int{1, 2} {
+					s := base(v, false)
+					s.Inject = []proto.Inject{{OnTTL: t, AnswerTTL: t, Form: "v6mapped:" + form, From: s.Target().String(), DelayUs: 1000, Tag: "noise"}}
+					items = append(items, proto.Item{Scn: s, Class: fmt.Sprintf("%s/%s/wrong-ip-version-mapped-addresses/ttl%d", v, form, t)})
+				}
+			}
+		}
 		// an identifier one past the LAST probe of the run (never sent by anybody): the edge of every per-TTL table
 		for _, form := range []string{vi.TEForm, vi.DestForm} {
 			fields := simnet.Fields(vi.Kind, form)
